@@ -17,6 +17,7 @@
 import M4riProofs.Props.C01
 import M4riProofs.Top
 import M4riProofs.GenTie
+import M4riProofs.GenTieSlice
 namespace M4ri.Props.C12
 open M4ri M4ri.BMat
 
@@ -119,5 +120,10 @@ end cfg2
 #check @M4ri.GenTie.mulEvenSplit_eq
 #check @M4ri.GenTie.sqrEvenSplit_eq
 #check @M4ri.GenTie.closer_eq
+
+
+/-! ### tie to the C text: loops cut out of larger C functions (generated by vlib/ctrans.py on every check, proved equal to the
+    model in GenTieSlice.lean) -/
+#check @M4ri.GenTieSlice.plePermUpdate_model
 
 end M4ri.Props.C12
